@@ -625,6 +625,26 @@ def diffRefStep (E : Env DKey DVal DKey) (sys : Sys DKey DVal DKey) (i o : Nat) 
         | .ok l s3 => .ok (RV.castU (.list l)) { sys0 with w := sys0.w.mergeUnit s3.w }
 
 
+/-- `Deserialize` from a token stream given in the operation line — entries in the given order, with
+    repeats if the line has them (a stream the crate's own `Serialize` never writes, but any other
+    producer may) — into the register, as `m0 serde m1` does with the stream of `serializeR`: the
+    model's `deserializeInto` on a scratch container of the register's capacity, then assignment. -/
+def deserStep (E : Env DKey DVal DKey) (sys : Sys DKey DVal DKey) (isMap : Bool) (i : Nat)
+    (xs : List (Nat × Int)) : Sys DKey DVal DKey × Out DKey DVal DKey :=
+  if isMap then
+    let toks : List (Tok DKey DVal) :=
+      .start (some xs.length) :: xs.map (fun p => Tok.entry ⟨p.1, 0⟩ ⟨0, p.2⟩) ++ [.fin]
+    customStep sys [i] [] fun sys0 =>
+      match assignMap E sys0 i (sys0.maps i).cap (deserializeInto E toks) with
+      | .ok _ s' => .ok (tokSummary toks) s' | .panic c s' => .panic c s' | .ub => .ub
+  else
+    let toks : List (Tok DKey Unit) :=
+      .start (some xs.length) :: xs.map (fun p => Tok.entry ⟨p.1, 0⟩ ()) ++ [.fin]
+    customStep sys [] [i] fun sys0 =>
+      match assignSet E sys0 i (sys0.sets i).cap (deserializeInto E.toUnit toks) with
+      | .ok _ s' => .ok (tokSummary toks).castU s' | .panic c s' => .panic c s' | .ub => .ub
+
+
 /-! ### `nth(k)`, `last()`, `count()` on drains / consuming iterators: `Model/StdIter.lean`
 
 Lines whose take is `tK` / `tM` (`nth(K)` / `nth(usize::MAX)`) / `z` (`last()`) or whose end is
@@ -845,6 +865,16 @@ partial def loop (profile : Profile) (h : IO.FS.Stream) (out : IO.FS.Stream) (st
             | [a] => do pure (← a.toNat?, 0)
             | _ => none
           ps.map fun ps => clonePlainStep st.sys isMap i ps
+        | _, _ => none
+      | [reg, "deser", _h, xs] =>
+        match parseReg? reg, parseList? xs with
+        | some (isMap, i), some items =>
+          let ps : Option (List (Nat × Int)) := items.mapM fun it =>
+            match it.splitOn "=" with
+            | [a, b] => do pure (← a.toNat?, ← b.toInt?)
+            | [a] => do pure (← a.toNat?, 0)
+            | _ => none
+          ps.map fun ps => deserStep st.env st.sys isMap i ps
         | _, _ => none
       | [reg, "serde_zst", k] =>
         match parseReg? reg, k.toNat? with
